@@ -2,6 +2,7 @@
 #include "fp2.h"
 #include "isog.h"
 #include "gf_constants.h"
+#include <verif_sign_hooks.h>
 
 #ifdef SQISIGN_SQISIGN2D_WEST_AC24_VERIF
 /* verification hooks (C10): candidates whose hint counter is below verif_basis_force_fail[k] are treated as
@@ -750,6 +751,9 @@ ec_curve_to_point_2f_above_montgomery(ec_point_t *P, const ec_curve_t *curve)
     fp2_half(&alpha, &alpha);
 
     int hint = 0;
+#ifdef SQISIGN_SQISIGN2D_WEST_AC24_VERIF
+    hint = verif_hint_start(); /* H2b: as if the 20 table candidates had failed */
+#endif
     fp2_t z1, z2;
     for (;;) {
         // collect z2-value from table, we have 20 chances
@@ -873,6 +877,9 @@ static int
 ec_curve_to_point_2f_not_above_montgomery(ec_point_t *P, const ec_curve_t *curve)
 {
     int hint = 0;
+#ifdef SQISIGN_SQISIGN2D_WEST_AC24_VERIF
+    hint = verif_hint_start(); /* H2b: as if the 20 table candidates had failed */
+#endif
     fp_t one;
     fp2_t x, t, t0, t1;
 
